@@ -701,6 +701,19 @@ fn verify_case(cfg: &Config, tmp: &Path, corpus: &[(Kind, String)], idx: u64, r:
         }
         _ => {}
     }
+    if r.chance(1, 10) {
+        // a side without any formula: a blank specification next to a user guide without
+        // assumptions (external), a blank program next to one that has only comparison
+        // constraints and hence no predicate (strong): problems without a single axiom
+        if strong {
+            t.left = Either::Left(["", "% nothing\n"][r.upto(2)].to_string());
+            t.right = [":- X = 1..3, X > 5.", ":- 1 > 2.\n:- X = 1..2, X = 3.", ":- #false."][r.upto(3)].to_string();
+        } else if with_spec {
+            spec = ["", "% an empty specification\n", "\n"][r.upto(3)].to_string();
+            t.ug = t.ug.lines().filter(|l| !l.trim_start().starts_with("assumption")).collect::<Vec<_>>().join("\n");
+        }
+        st.inc("verify_inputs_with_a_side_without_formulas");
+    }
     if r.chance(1, 12) {
         // declared predicates of enormous arity that no program mentions (accepted: nothing is
         // ever instantiated for them)
